@@ -490,6 +490,7 @@ succeeds the kernel excess and the offset sum to the blind sum of **everything h
 with multiplicity: Σ output keys + Σ extra factors − Σ input keys (mod n). -/
 theorem builder_offset_sum (elems : List Step) (fee excess : Nat) (tx : Tx)
     (h : transactionWithKernel elems fee excess = some tx) :
+    tx.ins = (runSteps {} elems).ins ∧ tx.outs = (runSteps {} elems).outs ∧
     tx.fee = fee ∧ tx.excess = excess ∧ excess < N ∧ tx.offset < N ∧
     (tx.excess + tx.offset) % N =
       rawSum (blinds (outputsOf elems) ++ (excessesOf elems).filterMap bfSecretKey)
@@ -505,7 +506,7 @@ theorem builder_offset_sum (elems : List Step) (fee excess : Nat) (tx : Tx)
       injection h with h
       subst h
       obtain ⟨_, h2, _, h4, h5⟩ := split_sum hoff
-      refine ⟨rfl, rfl, h2, h4, ?_⟩
+      refine ⟨rfl, rfl, rfl, rfl, h2, h4, ?_⟩
       have := (sum_value hbs).1
       simp only [rawSum]
       omega
@@ -522,17 +523,11 @@ theorem builder_balances (elems : List Step) (fee excess : Nat) (tx : Tx)
     (hi : (inputsOf elems).Nodup) (ho : (outputsOf elems).Nodup) (hx : excessesOf elems = [])
     (hv : sumValues (inputsOf elems) = sumValues (outputsOf elems) + fee) :
     tx.ins = inputsOf elems ∧ tx.outs = outputsOf elems ∧ txBalances tx = true := by
-  obtain ⟨hf, he, hel, hol, hsum⟩ := builder_offset_sum elems fee excess tx h
+  obtain ⟨hti, hto, hf, he, hel, hol, hsum⟩ := builder_offset_sum elems fee excess tx h
   have hins := runSteps_ins {} elems (by simpa using hi)
   have houts := runSteps_outs {} elems (by simpa using ho)
   simp only [List.nil_append] at hins houts
-  have htx : tx.ins = inputsOf elems ∧ tx.outs = outputsOf elems := by
-    unfold transactionWithKernel at h
-    split at h
-    · split at h
-      · injection h with h; subst h; exact ⟨hins, houts⟩
-      · cases h
-    · cases h
+  have htx : tx.ins = inputsOf elems ∧ tx.outs = outputsOf elems := ⟨hti.trans hins, hto.trans houts⟩
   refine ⟨htx.1, htx.2, ?_⟩
   simp only [hx, List.filterMap_nil, List.append_nil] at hsum
   simp only [txBalances, htx.1, htx.2, hf, hv, acc_eq_rawSum, ← hsum, sadd, he,
@@ -563,7 +558,7 @@ theorem builder_validates (elems : List Step) (fee excess : Nat) (tx : Tx)
     · cases hq : outputsOf elems with
       | nil => exact absurd hq hh
       | cons a l => simp
-  simp [hnc, hnn, h3]
+  simp only [hnc, hnn, h3, Bool.false_eq_true, if_false, if_true]
 
 /-- The builder fails (returns `Err`) exactly in the zero special cases: the blind sum of what was
 handed in is 0 mod n (e.g. nothing was handed in, or the same key on both sides), the excess is
@@ -577,11 +572,11 @@ theorem builder_fails_iff (elems : List Step) (fee excess : Nat) (hx : excessesO
   obtain ⟨hneg, hpos, hb⟩ := runSteps_keys {} elems
   simp only [List.nil_append] at hneg hpos hb
   have hN := N_pos
+  have hbsl := rawSum_lt (blinds (outputsOf elems)) (blinds (inputsOf elems))
   unfold transactionWithKernel
   simp only [hneg, hpos, hb, hx, kcBlindSum, List.filterMap_nil, List.append_nil, secpBlindSum_eq,
     hk.1, hk.2, Bool.or_self, Bool.false_eq_true, if_false]
   generalize rawSum (blinds (outputsOf elems)) (blinds (inputsOf elems)) = bs at *
-  have hbs : bs < N ∨ True := Or.inr trivial
   by_cases hz : bs = 0
   · simp [hz]
   · simp only [hz, if_false, false_or]
@@ -595,37 +590,15 @@ theorem builder_fails_iff (elems : List Step) (fee excess : Nat) (hx : excessesO
     | invalidKey =>
       simp only [true_iff]
       rcases hsp.mp hq with hh | hh | hh
-      · exfalso
-        have : bs < N := by
-          rename_i bsdef
-          exact absurd hh (by
-            intro hh'
-            have := split_sum (self := bs) (b1 := excess)
-            exact hz (by omega))
-        omega
+      · omega
       · exact Or.inl hh
       · exact Or.inr hh
     | panic =>
       exfalso
-      unfold bfSplit at hq
-      split at hq
-      · rw [secpBlindSum_eq] at hq
-        rename_i k k1 hk1 hk2
-        have a1 : k < N := by
-          unfold bfSecretKey at hk1; split at hk1
-          · injection hk1 with hk1; omega
-          · split at hk1
-            · injection hk1 with hk1; omega
-            · cases hk1
-        have a2 : k1 < N := by
-          unfold bfSecretKey at hk2; split at hk2
-          · injection hk2 with hk2; omega
-          · split at hk2
-            · injection hk2 with hk2; omega
-            · cases hk2
-        simp [overflows, Nat.not_le.mpr a1, Nat.not_le.mpr a2] at hq
+      by_cases he : excess < N
+      · rw [bfSplit_eq hbsl he] at hq
         split at hq <;> cases hq
-      · cases hq
+      · rw [bfSplit_big bs excess (Or.inr (by omega))] at hq; cases hq
 
 /-- A repeated element breaks the balance: the body keeps it once (`with_input` drops an input that
 is already present) but the blind sum counts it twice. Kernel-checked counter-example: inputs
